@@ -84,13 +84,15 @@ def case(draw, tier):
             items.append(A.Stmt("Rgate", A.Args([e], [], False), [S.F1(A.Num("int", str(draw(st.integers(0, 4)))))], "[", "]"))
     target = draw(st.one_of(st.none(), st.sampled_from(["gaussian", "X8_01", "fock"])))
     script = A.Script("tmpl", "1.0", A.Meta(target, None) if target else None, None, [], items)
-    vals = {p: draw(st.floats(min_value=-5, max_value=5, allow_nan=False).filter(lambda x: abs(x) > 1e-2)) for p in params}
+    vals = {p: draw(st.one_of(st.floats(min_value=-5, max_value=5, allow_nan=False).filter(lambda x: abs(x) > 1e-2),
+                              st.floats(min_value=-5, max_value=5, allow_nan=False).filter(lambda x: abs(x) > 1e-2),
+                              st.sampled_from([1e6, -3.5e7, 2.25e9, 1e-6, -4e-5, 123456.789]))) for p in params}
     swaps = draw(st.lists(st.integers(0, max(0, len(items) - 2)), max_size=10))
     if draw(st.booleans()):
         swaps = [0, 0] + swaps if False else [0] + swaps       # the two leading statements are swapped when they commute
     edit = None
     if draw(st.integers(0, 2)) == 0:
-        edit = {"kind": draw(st.sampled_from(["gate", "modes", "modes", "order", "order", "version", "target"])),
+        edit = {"kind": draw(st.sampled_from(["gate", "modes", "modes", "modes-digits", "order", "order", "version", "target"])),
                 "at": draw(st.integers(0, len(items) - 1)), "how": draw(st.integers(0, 5))}
     return {"script": script, "values": vals, "swaps": swaps, "edit": edit, "forms": {k: sorted(v) for k, v in forms.items()}}
 
@@ -192,6 +194,7 @@ def build_instance(c):
             applied += 1
     name, version, target = inst.name, inst.version, inst.target
     desc = None
+    tmpl_override = None
     e = c["edit"]
     if e:
         at = e["at"] % len(items)
@@ -209,6 +212,18 @@ def build_instance(c):
                 new[0] = [m for m in range(6) if m not in ms][e["how"] % (6 - len(ms))]
             items[at] = A.Stmt(it.op, it.args, [S.F1(A.Num("int", str(m))) for m in new], it.lbr, it.rbr)
             desc = "modes of op %d changed %r -> %r" % (at, ms, new)
+        elif e["kind"] == "modes-digits":
+            # a two-mode gate moved to modes whose decimal digits concatenate to the same string ([1, 12] -> [11, 2]);
+            # the template is rewritten to use [1, 12] there (wires 1 and 12 are used by nothing else)
+            two = [i for i, x in enumerate(items) if len(_modes(x)) == 2]
+            if two:
+                at = two[e["how"] % len(two)]
+                it = items[at]
+                a_, b_ = [(1, 12), (21, 3), (1, 10), (11, 0)][e["how"] % 4]
+                a2, b2 = {(1, 12): (11, 2), (21, 3): (2, 13), (1, 10): (11, 0), (11, 0): (1, 10)}[(a_, b_)]
+                tmpl_override = (at, [a_, b_])
+                items[at] = A.Stmt(it.op, it.args, [S.F1(A.Num("int", str(a2))), S.F1(A.Num("int", str(b2)))], it.lbr, it.rbr)
+                desc = "modes of op %d are %r in the template and %r in the program (same digit string)" % (at, [a_, b_], [a2, b2])
         elif e["kind"] == "order":
             for off in range(len(items) - 1):
                 i = (at + off) % (len(items) - 1)
@@ -225,7 +240,7 @@ def build_instance(c):
             new = [t for t in [None, "gaussian", "X8_01", "fock", "other"] if t != cur][e["how"] % 4]
             target = A.Meta(new, None) if new else None
             desc = "target %r -> %r" % (cur, new)
-    return A.Script(name, version, target, inst.ptype, [], items), applied, desc
+    return A.Script(name, version, target, inst.ptype, [], items), applied, desc, tmpl_override
 
 
 def check(c):
@@ -233,8 +248,14 @@ def check(c):
     if c.get("tdm"):
         return check_tdm(c)
     try:
-        inst_script, applied, desc = build_instance(c)
-        t_text = render.render(c["script"])
+        inst_script, applied, desc, override = build_instance(c)
+        tmpl = c["script"]
+        if override is not None:
+            titems = list(tmpl.items)
+            it = titems[override[0]]
+            titems[override[0]] = A.Stmt(it.op, it.args, [S.F1(A.Num("int", str(m))) for m in override[1]], it.lbr, it.rbr)
+            tmpl = A.Script(tmpl.name, tmpl.version, tmpl.target, tmpl.ptype, [], titems)
+        t_text = render.render(tmpl)
         i_text = render.render(inst_script)
     except render.RenderError as e:
         raise HarnessError(str(e))
@@ -268,13 +289,16 @@ def check(c):
     if not isinstance(res, dict) or set(res) != set(c["values"]):
         out.violations.append(Violation("result|parameter-set", "returned %r, template parameters %r\n%s" % (res, sorted(c["values"]), ctx)))
         return out
+    scale = _offset_scales(c["script"])
     for k, v in c["values"].items():
         try:
             got = float(res[k])
         except Exception:
             out.violations.append(Violation("result|non-numeric", "parameter %s matched to %r\n%s" % (k, res[k], ctx)))
             return out
-        if abs(got - v) > 1e-9 * abs(v):
+        # "reproduces the program's arguments": an argument c1*p + c0 determines p only up to rounding of the argument
+        # itself, i.e. up to about eps*|c0/c1| (1e-13 * that scale is far inside what reproduces the argument to 1e-9)
+        if abs(got - v) > 1e-9 * abs(v) + 1e-13 * scale.get(k, 0.0):
             out.violations.append(Violation("result|value", "parameter %s matched to %r, generated value %r\n%s" % (k, got, v, ctx)))
             return out
     # the same law for an instance made by the template itself, after the template has been matched once
@@ -286,8 +310,33 @@ def check(c):
                                         "match_template(T, T(**values)) raised %s: %s\n%s" % (type(ex).__name__, ex, ctx)))
         return out
     if not isinstance(res2, dict) or set(res2) != set(c["values"]) or any(
-            abs(float(res2[k]) - v) > 1e-9 * abs(v) for k, v in c["values"].items()):
+            abs(float(res2[k]) - v) > 1e-9 * abs(v) + 1e-13 * scale.get(k, 0.0) for k, v in c["values"].items()):
         out.violations.append(Violation("own-instance|result", "match_template(T, T(**values)) returned %r for values %r\n%s" % (res2, c["values"], ctx)))
+    return out
+
+
+def _offset_scales(script):
+    """parameter -> max |c0/c1| over the affine arguments c1*p + c0 it occurs in."""
+    from ..model import refsem, numeric as N
+    out = {}
+    for it in script.items:
+        if it.args is None:
+            continue
+        for v in it.args.pos:
+            if not isinstance(v, A.Flat):
+                continue
+            ps = {p.name for p in A.walk_prims(v) if isinstance(p, A.Param)}
+            if len(ps) != 1:
+                continue
+            (name,) = ps
+            try:
+                f0 = refsem.ev(v, {}, {("p", name): N.V("real", N.mpf(0), 0)}).as_mp()
+                f1 = refsem.ev(v, {}, {("p", name): N.V("real", N.mpf(1), 0)}).as_mp()
+            except Exception:
+                continue
+            c1 = f1 - f0
+            if c1 != 0:
+                out[name] = max(out.get(name, 0.0), float(abs(f0 / c1)))
     return out
 
 
